@@ -392,6 +392,11 @@ def forms(ctx):
         return [AtomGrid.from_pruned(rg, radius_i[i], r_sectors=rs, d_sectors=dsec, s_sectors=ssec, center=coords[i], rotate=rot) for i in range(n)]
 
     B = lambda: BeckeWeights(order=3)
+    # the seed a constructor uses when none is given is whatever its signature declares (the value itself is not part of
+    # the property: only that omitted arguments mean the declared defaults)
+    import inspect
+
+    DEF = lambda fn: inspect.signature(fn).parameters["rotate"].default
     table = [
         ("from_pruned:float-radius", lambda: MolGrid.from_pruned(nums, coords, 1.2, [rs] * n, [ds] * n, rgrid=rg, aim_weights=B(), rotate=0),
          lambda: pruned([1.2] * n, ds), 0),
@@ -410,11 +415,11 @@ def forms(ctx):
         ("from_pruned:array-sectors", lambda: MolGrid.from_pruned(nums, coords, 1.2, np.array([rs] * n), np.array([ds] * n), rgrid=rg, aim_weights=B(), rotate=0),
          lambda: pruned([1.2] * n, ds), 0),
         ("from_pruned:default-seed-and-weights", lambda: MolGrid.from_pruned(nums, coords, 1.2, [rs] * n, [ds] * n, rgrid=rg),
-         lambda: pruned([1.2] * n, ds, rot=37), 37),
+         lambda: pruned([1.2] * n, ds, rot=DEF(MolGrid.from_pruned)), 37),
         ("from_preset:list-of-presets", lambda: MolGrid.from_preset(nums, coords, ["coarse", "medium", "coarse"], rgrid=rg, aim_weights=B(), rotate=0),
          lambda: [AtomGrid.from_preset(int(nums[i]), ["coarse", "medium", "coarse"][i], rg, center=coords[i], rotate=0) for i in range(n)], 0),
         ("from_preset:default-seed-and-weights", lambda: MolGrid.from_preset(nums, coords, "coarse", rgrid=rg),
-         lambda: [AtomGrid.from_preset(int(nums[i]), "coarse", rg, center=coords[i], rotate=37) for i in range(n)], 37),
+         lambda: [AtomGrid.from_preset(int(nums[i]), "coarse", rg, center=coords[i], rotate=DEF(MolGrid.from_preset)) for i in range(n)], 37),
     ]
     # default radial grids (rgrid omitted) for a molecule whose atomic numbers are neither sorted nor distinct
     def drg(i):
@@ -430,7 +435,7 @@ def forms(ctx):
         table.append((f"from_size:{size}", lambda size=size: MolGrid.from_size(nums, coords, size, rgrid=rg, aim_weights=B(), rotate=0),
                       lambda size=size: [AtomGrid(rg, degrees=None, sizes=[size], center=coords[i], rotate=0) for i in range(n)], 0))
     table.append(("from_size:default-seed-and-weights", lambda: MolGrid.from_size(nums, coords, 26, rgrid=rg),
-                  lambda: [AtomGrid(rg, degrees=None, sizes=[26], center=coords[i], rotate=37) for i in range(n)], 37))
+                  lambda: [AtomGrid(rg, degrees=None, sizes=[26], center=coords[i], rotate=DEF(MolGrid.from_size)) for i in range(n)], 37))
     for name, make, hand_fn, rot in table:
         ctx.count(section="argument-forms")
         case = {"route": "forms", "form": name}
